@@ -88,7 +88,9 @@ def check_history(case, ctx):
                     # removing one of two knots 4e-6 apart is exact only up to the conditioning of that pair; the
                     # near-knot class is exercised for insertion (C04) and splitting (C07), not for removal
                     desc = ["in"] + list(desc[1:])
-                pick = pick_insert(degs[k], kvs[k], szs[k], desc, others=[o for j, o in enumerate(kvs) if j != k])
+                pick = pick_insert(degs[k], kvs[k], szs[k], desc, others=[o for j, o in enumerate(kvs) if j != k],
+                                   again=[e[1] for e in ledger if e[0] == k])
+                ctx.label("non-dyadic-parameter", desc[0] in ("decimal", "again"))
                 if pick is None:
                     continue
                 u, s, r = pick
